@@ -176,6 +176,10 @@ def _is_int(v):
     return isinstance(v, Fraction) and v.denominator == 1
 
 
+class DTypeMark:
+    """`x.dtype` / `x.shape`: only ever an argument of a value-transparent conversion"""
+
+
 class Interp:
     """straight-line abstract interpreter: numbers are exact rationals, the
     polynomial variable is an indeterminate, dtype conversions are transparent"""
@@ -195,8 +199,14 @@ class Interp:
             return Fraction(n.value)
         if isinstance(n, ast.Name):
             if n.id not in env:
+                g = getattr(self, "globals", {}).get(n.id)
+                if g is not None:
+                    # a module-level constant the function consults (never written by it: names are rebound locally)
+                    return self.ev(g, {})
                 self.fail(n, "name not bound in the abstract run")
             return env[n.id]
+        if isinstance(n, ast.Attribute) and n.attr in ("dtype", "shape"):
+            return DTypeMark()
         if isinstance(n, ast.UnaryOp) and isinstance(n.op, (ast.USub, ast.UAdd)):
             v = self.ev(n.operand, env)
             if isinstance(n.op, ast.UAdd):
@@ -423,12 +433,23 @@ class Interp:
 
 
 # ------------------------------------------------------------ table location
+def _int_keyed(d):
+    return bool(d.keys) and all(isinstance(k, ast.Constant) and isinstance(k.value, int) for k in d.keys)
+
+
 def find_table(fn, interp):
-    """the one dict literal {int: [numbers]} assigned inside the function -> (name, Table, {L: lineno})"""
+    """the one dict literal {int: [numbers]} the function consults - assigned inside it or a module-level
+    constant it reads -> (name, Table, {L: lineno})"""
     hits = []
-    for st in fn.node.body:
-        if isinstance(st, ast.Assign) and len(st.targets) == 1 and isinstance(st.targets[0], ast.Name) and isinstance(st.value, ast.Dict):
+    for st in ast.walk(fn.node):
+        if isinstance(st, ast.Assign) and len(st.targets) == 1 and isinstance(st.targets[0], ast.Name) and isinstance(st.value, ast.Dict) and _int_keyed(st.value):
             hits.append(st)
+    if not hits:
+        used = {x.id for x in ast.walk(fn.node) if isinstance(x, ast.Name)}
+        for st in fn.mod.tree.body:
+            if (isinstance(st, ast.Assign) and len(st.targets) == 1 and isinstance(st.targets[0], ast.Name) and st.targets[0].id in used
+                    and isinstance(st.value, ast.Dict) and _int_keyed(st.value)):
+                hits.append(st)
     if len(hits) != 1:
         raise AnalysisError("%s: expected one literal coefficient table `{L: [...]}`, found %d" % (fn.key, len(hits)))
     st = hits[0]
@@ -444,6 +465,10 @@ def poly_of_function(fn, L):
     if len(fn.params) != 2:
         raise AnalysisError("%s: expected parameters (l, z), got %s" % (fn.key, fn.params))
     interp = Interp(fn.key)
+    interp.globals = {
+        st.targets[0].id: st.value for st in fn.mod.tree.body
+        if isinstance(st, ast.Assign) and len(st.targets) == 1 and isinstance(st.targets[0], ast.Name) and isinstance(st.value, (ast.Dict, ast.List, ast.Tuple, ast.Constant))
+    }
     env = {fn.params[0]: Fraction(L), fn.params[1]: Poly({1: 1})}
     r = interp.run(fn.node, env)
     if isinstance(r, Fraction):
